@@ -142,8 +142,14 @@ func init() {
 			{Name: "c14.flip", Impl: func(a []string) string {
 				b := c14exact(unhx(a[0]))
 				i, _ := strconv.Atoi(a[1])
-				b[i/8] ^= 1 << uint(i%8)
 				k := &kcl.KeyCredential{}
+				if c13Used(a) { // the same parser object has just parsed and checked the genuine blob
+					if err := k.FromBytes(c14exact(unhx(a[0]))); err == nil {
+						k.ComputeKeyHash()
+						k.CheckIntegrity()
+					}
+				}
+				b[i/8] ^= 1 << uint(i%8)
 				if err := k.FromBytes(b); err != nil {
 					return "ok rejected"
 				}
@@ -804,21 +810,4 @@ func genC14(r *Rng, tier string) []Case {
 	}
 	c14Resolve(cs)
 	return cs
-}
-
-// a complete, valid credential blob that a parser object may have seen before the one under test
-var c14EarlierBlob []byte
-
-func c14Earlier() []byte {
-	if c14EarlierBlob == nil {
-		rk := kcrypto.RSAKeyMaterial{KeySize: 64, Exponent: 65537, Modulus: []byte{0xC1, 0xC2, 0xC3, 0xC4, 0xC5, 0xC6, 0xC7, 0xC9}, Prime1: []byte{0xD1, 0xD3}, Prime2: []byte{0xE5}}
-		g := guid.GUID{A: 0xFEDCBA98, B: 0x7654, C: 0x3210, D: 0xFEDC, E: 0xBA9876543210}
-		k := kcl.NewKeyCredential(key.KeyCredentialVersion{Value: key.KeyCredentialVersion_2}, "earlier", rk, g, c14time(132223104000000000), c14time(132223104000000000))
-		b, err := k.ToBytes()
-		if err != nil {
-			panic("harness: cannot build the earlier credential: " + err.Error())
-		}
-		c14EarlierBlob = b
-	}
-	return append([]byte{}, c14EarlierBlob...)
 }
